@@ -425,6 +425,276 @@ def fam_wrappers(v):
     return cases
 
 
+HIST_ENTRIES = [0.3, 0.8, 1.1, 1.4, 1.7, 1.9, 2.2, 2.4, 2.5, 2.7, 2.9, 3.0, 3.2, 3.3, 3.6, 3.8, 4.1, 4.4, 4.6, 4.9, 5.3, 5.8, 2.1, 2.8, 3.1, 1.5, 3.9, 0.6, 4.2, 2.6]
+
+
+def custom_cost(a=1.0, b=2.0):
+    u, w = (a - 1.7) / 0.3, (b - 0.6) / 0.2
+    return (u * u - 0.8 * u * w + w * w) / (1.0 - 0.16)
+
+
+# the control keywords of the wrappers in the order in which the documentation lists them; a combination is applied to the
+# explicitly built fit in this order: starting values, step sizes, limits, fixed parameters ("the parameter name followed by
+# an optional value to which the parameter should be set prior to fixing"), constraints, do_fit(asymmetric errors = profile)
+CONTROL_ITEMS = ("p0", "dp0", "limin", "limact", "fixv", "fixn", "con", "profile")
+
+
+def _control_alphabet(v):
+    """fit type -> (parameter names, defaults, {item: contribution}); all values differ from each other, from the defaults and
+    from the minimum: the value a parameter is fixed to is not its p0 entry, p0 is inside 'limin' and outside 'limact' (whose
+    upper bound is active at the minimum), the fixed value is inside both."""
+    d = 0.01 * v
+
+    def table(n0, n1, defaults, p0, dp0, limin, limact, fixv, con):
+        return (n0, n1), defaults, {
+            "p0": dict(p0=list(p0)),
+            "dp0": dict(dp0=list(dp0)),
+            "limin": dict(limits=[(n0,) + tuple(limin)]),
+            "limact": dict(limits=[(n1,) + tuple(limact)]),
+            "fixv": dict(fixed=[(n1, fixv)]),
+            "fixn": dict(fixed=[(n1,)]),
+            "con": dict(constraints=[(n0,) + tuple(con[0]), (n1,) + tuple(con[1]) + (True,)]),
+            "profile": dict(profile=True),
+        }
+
+    return {
+        "xy_fit": table("a", "b", [1.1, 0.4], [1.4 + d, 0.2], [0.3, 0.05], (-1.0, 3.0), (0.3, 0.6 + d), 0.55 + d, [(1.2, 0.1), (0.5, 0.4)]),
+        "indexed_fit": table("a", "b", [1.2, 0.7], [1.8 + d, 0.3], [0.2, 0.04], (0.0, 4.0), (0.35, 0.65 + d), 0.6 + d, [(1.5, 0.2), (0.8, 0.3)]),
+        "hist_fit": table("mu", "sigma", [2.9, 1.6], [3.3 + d, 1.2], [0.2, 0.1], (0.0, 6.0), (1.25, 1.4 + d), 1.3 + d, [(3.0, 0.2), (1.5, 0.1)]),
+        "unbinned_fit": table("mu", "sigma", [2.9, 1.6], [3.3 + d, 1.1], [0.2, 0.1], (0.0, 6.0), (1.15, 1.3 + d), 1.25 + d, [(3.0, 0.2), (1.5, 0.1)]),
+        "custom_fit": table("a", "b", [1.0, 2.0], [1.4 + d, 0.2], [0.3, 0.05], (-1.0, 3.0), (0.3, 0.5 + d), 0.45 + d, [(1.2, 0.1), (0.5, 0.4)]),
+    }
+
+
+def _merge(contribs):
+    out = dict(p0=None, dp0=None, limits=[], fixed=[], constraints=[], profile=False)
+    for c in contribs:
+        for k, val in c.items():
+            if isinstance(out[k], list):
+                out[k] = out[k] + list(val)
+            else:
+                out[k] = val
+    return out
+
+
+def _kwform(entries, form):
+    """The documented forms of limits / fixed / constraints: one bare entry, or an iterable of entries."""
+    if not entries:
+        return None
+    if form == "auto":
+        return tuple(entries[0]) if len(entries) == 1 else [tuple(e) for e in entries]
+    if form == "bare-list":
+        assert len(entries) == 1
+        return list(entries[0])
+    if form == "list-of-tuples":
+        return [tuple(e) for e in entries]
+    if form == "tuple-of-lists":
+        return tuple(list(e) for e in entries)
+    raise KeyError(form)
+
+
+def fam_wrapper_combos(v):
+    import kafe2
+    from kafe2.fit.custom.fit import CustomFit
+
+    ds, val = data_sets(v)
+    x, y = ds["pos"]
+    alpha = _control_alphabet(v)
+
+    wrappers = {
+        "xy_fit": lambda **kw: kafe2.xy_fit(lm, x, y, y_error=val.ey, y_error_cor=val.ys, **kw),
+        "indexed_fit": lambda **kw: kafe2.indexed_fit(im, y, error=val.ey, error_rel=val.ry, **kw),
+        "hist_fit": lambda **kw: kafe2.hist_fit(ref.normal_density, HIST_ENTRIES, n_bins=5, bin_range=(0.0, 6.0), **kw),
+        "unbinned_fit": lambda **kw: kafe2.unbinned_fit(ref.normal_density, HIST_ENTRIES, **kw),
+        "custom_fit": lambda **kw: kafe2.custom_fit(custom_cost, **kw),
+    }
+
+    def explicit(ftype):
+        if ftype == "xy_fit":
+            f = kafe2.XYFit([x, y], lm)
+            f.add_error("y", val.ey)
+            f.add_error("y", val.ys, correlation=1.0)
+        elif ftype == "indexed_fit":
+            f = kafe2.IndexedFit(y, im)
+            f.add_error(val.ey)
+            f.add_error(val.ry, relative=True, reference="model")
+        elif ftype == "hist_fit":
+            f = kafe2.HistFit(kafe2.HistContainer(5, (0.0, 6.0), None, HIST_ENTRIES), ref.normal_density, cost_function="poisson")
+        elif ftype == "unbinned_fit":
+            f = kafe2.UnbinnedFit(HIST_ENTRIES, ref.normal_density)
+        else:
+            f = CustomFit(custom_cost)
+        return f
+
+    def signature(res, f, m, names, defaults):
+        vals = np.array([res["parameter_values"][n] for n in names], dtype=float)
+        errs = np.array([res["parameter_errors"][n] for n in names], dtype=float)
+        out = {"fit:values": vals, "fit:errors": errs, "fit:cost": float(res["cost"]), "fit:ndf": -1 if res["ndf"] is None else int(res["ndf"])}
+        out["fit:cov"] = None if res["parameter_cov_mat"] is None else np.asarray(res["parameter_cov_mat"], dtype=float)
+        asym = res["asymmetric_parameter_errors"]
+        out["fit:asym"] = None if asym is None else np.array([asym[n] for n in names], dtype=float)
+        out["kw:profile"] = bool((asym is not None) == bool(m["profile"]))
+        # the returned fit object is at the reported minimum (not demanded with profile=True: MINOS may move the minimum afterwards)
+        out["kw:fit-object"] = bool(res["did_fit"] is True and (m["profile"] or np.array_equal(np.asarray(f.parameter_values, dtype=float), vals)))
+        fixed_names = [e[0] for e in m["fixed"]]
+        for e in m["fixed"]:
+            i = names.index(e[0])
+            want = e[1] if len(e) > 1 else (m["p0"][i] if m["p0"] is not None else defaults[i])
+            if any(l[0] == e[0] and ((l[1] is not None and want < l[1]) or (l[2] is not None and want > l[2])) for l in m["limits"]):
+                continue  # fixed outside its limits: nothing is documented about which of the two requests wins
+            out["kw:fixed:" + e[0]] = bool(abs(vals[i] - want) <= 1e-12 * max(1.0, abs(want)) and errs[i] == 0.0)
+        for e in m["limits"]:
+            if e[0] in fixed_names:
+                continue
+            i = names.index(e[0])
+            out["kw:limits:" + e[0]] = bool((e[1] is None or vals[i] >= e[1] - 1e-9) and (e[2] is None or vals[i] <= e[2] + 1e-9))
+        return out
+
+    def mk(ftype, contribs, forms=("auto", "auto", "auto")):
+        names, defaults, _ = alpha[ftype]
+        names = list(names)
+        m = _merge(contribs)
+
+        def A():
+            with warnings.catch_warnings():
+                warnings.simplefilter("ignore")
+                kw = dict(save=False, report=False, profile=m["profile"])
+                for key in ("p0", "dp0"):
+                    if m[key] is not None:
+                        kw[key] = list(m[key])
+                for key, form in zip(("limits", "fixed", "constraints"), forms):
+                    if m[key]:
+                        kw[key] = _kwform(m[key], form)
+                res = wrappers[ftype](**kw)
+                return signature(res, res["fit"], m, names, defaults)
+
+        def B():
+            with warnings.catch_warnings():
+                warnings.simplefilter("ignore")
+                f = explicit(ftype)
+                if m["p0"] is not None:
+                    f.set_all_parameter_values(list(m["p0"]))
+                if m["dp0"] is not None:
+                    f.parameter_errors = list(m["dp0"])
+                for e in m["limits"]:
+                    f.limit_parameter(*e)
+                for e in m["fixed"]:
+                    f.fix_parameter(*e)
+                for e in m["constraints"]:
+                    f.add_parameter_constraint(*e)
+                res = f.do_fit(asymmetric_parameter_errors=m["profile"])
+                return signature(res, f, m, names, defaults)
+
+        return A, B
+
+    cases = []
+    for ftype in wrappers:
+        items = alpha[ftype][2]
+        n0, n1 = alpha[ftype][0]
+        combos = [()] + [(i,) for i in CONTROL_ITEMS]
+        combos += [(i, j) for a_, i in enumerate(CONTROL_ITEMS) for j in CONTROL_ITEMS[a_ + 1 :] if (i, j) != ("fixv", "fixn")]
+        combos += [("p0", "dp0", "limin", "fixv", "con"), ("p0", "dp0", "limin", "limact", "con", "profile"), ("p0", "limact", "fixn", "con", "profile")]
+        for combo in combos:
+            A, B = mk(ftype, [items[i] for i in combo])
+            cases.append(("combo/%s/%s" % (ftype, "+".join(combo) if combo else "none"), A, B))
+        # the forms of one keyword: a bare list, an iterable holding one entry, tuples / lists, one-sided limits
+        lim1, fix1, con1 = items["limact"]["limits"], items["fixv"]["fixed"], items["con"]["constraints"][:1]
+        for fname, contribs, forms in (
+            ("limits:bare-list", [dict(limits=lim1)], ("bare-list", "auto", "auto")),
+            ("limits:list-of-one", [dict(limits=lim1)], ("list-of-tuples", "auto", "auto")),
+            ("limits:tuple-of-lists", [items["limin"], items["limact"]], ("tuple-of-lists", "auto", "auto")),
+            ("limits:upper-only", [dict(limits=[(n1, None, lim1[0][2])]), items["p0"]], ("auto", "auto", "auto")),
+            ("limits:lower-only", [dict(limits=[(n1, lim1[0][2] + 0.3, None)]), items["p0"]], ("auto", "auto", "auto")),
+            ("fixed:bare-list", [dict(fixed=fix1), items["p0"]], ("auto", "bare-list", "auto")),
+            ("fixed:list-of-one", [dict(fixed=fix1), items["p0"]], ("auto", "list-of-tuples", "auto")),
+            ("fixed:tuple-of-lists", [dict(fixed=fix1), items["p0"]], ("auto", "tuple-of-lists", "auto")),
+            ("constraints:bare-tuple", [dict(constraints=con1)], ("auto", "auto", "auto")),
+            ("constraints:bare-list", [dict(constraints=con1)], ("auto", "auto", "bare-list")),
+            ("constraints:tuple-of-lists", [items["con"], items["fixv"]], ("auto", "auto", "tuple-of-lists")),
+        ):
+            A, B = mk(ftype, contribs, forms)
+            cases.append(("form/%s/%s" % (ftype, fname), A, B))
+
+    # pairs of uncertainty keywords (the family 'wrappers' uses each keyword next to y_error / error only)
+    xy_kw = {
+        "x_error": (val.ex, ("x", dict(err_val=val.ex))),
+        "y_error": (val.ey, ("y", dict(err_val=val.ey))),
+        "x_error_rel": (val.rx, ("x", dict(err_val=val.rx, relative=True, reference="data"))),
+        "y_error_rel": (val.ry, ("y", dict(err_val=val.ry, relative=True, reference="model"))),
+        "x_error_cor": (val.xs, ("x", dict(err_val=val.xs, correlation=1.0))),
+        "y_error_cor": (val.ys, ("y", dict(err_val=val.ys, correlation=1.0))),
+        "x_error_cor_rel": (0.02, ("x", dict(err_val=0.02, correlation=1.0, relative=True, reference="data"))),
+        "y_error_cor_rel": (0.04, ("y", dict(err_val=0.04, correlation=1.0, relative=True, reference="model"))),
+    }
+    i_kw = {
+        "error": (val.ey, dict(err_val=val.ey)),
+        "error_rel": (val.ry, dict(err_val=val.ry, relative=True, reference="model")),
+        "error_cor": (val.ys, dict(err_val=val.ys, correlation=1.0)),
+        "error_cor_rel": (0.03, dict(err_val=0.03, correlation=1.0, relative=True, reference="model")),
+    }
+    h_kw = {
+        "error": (0.4, dict(err_val=0.4)),
+        "error_rel": (0.05, dict(err_val=0.05, relative=True, reference="model")),
+        "error_cor": (0.3, dict(err_val=0.3, correlation=1.0)),
+        "error_cor_rel": (0.04, dict(err_val=0.04, correlation=1.0, relative=True, reference="model")),
+    }
+
+    def err_sig(res, f, names):
+        out = {"fit:values": np.array([res["parameter_values"][n] for n in names], dtype=float), "fit:errors": np.array([res["parameter_errors"][n] for n in names], dtype=float)}
+        out["fit:cost"], out["fit:ndf"] = float(res["cost"]), int(res["ndf"])
+        out["fit:cov"] = np.asarray(res["parameter_cov_mat"], dtype=float)
+        tc = f.total_cov_mat
+        out["total_cov_mat"] = None if tc is None else np.asarray(tc, dtype=float)
+        return out
+
+    def mk_err(ftype, table, pair):
+        keys = list(pair)
+        if ftype == "xy_fit" and "y_error" not in keys:
+            keys = ["y_error"] + keys  # a fit of xy data needs an absolute y uncertainty to be comparable at all parameter points
+        if ftype == "indexed_fit" and "error" not in keys:
+            keys = ["error"] + keys
+
+        def A():
+            with warnings.catch_warnings():
+                warnings.simplefilter("ignore")
+                kw = {k: table[k][0] for k in keys}
+                if ftype == "xy_fit":
+                    res = kafe2.xy_fit(lm, x, y, save=False, report=False, profile=False, **kw)
+                elif ftype == "indexed_fit":
+                    res = kafe2.indexed_fit(im, y, save=False, report=False, profile=False, **kw)
+                else:
+                    res = kafe2.hist_fit(ref.normal_density, HIST_ENTRIES, n_bins=5, bin_range=(0.0, 6.0), save=False, report=False, profile=False, **kw)
+                return err_sig(res, res["fit"], list(res["parameter_values"]))
+
+        def B():
+            with warnings.catch_warnings():
+                warnings.simplefilter("ignore")
+                if ftype == "xy_fit":
+                    f = kafe2.XYFit([x, y], lm)
+                    for k in keys[::-1]:  # the order in which sources are added is immaterial
+                        f.add_error(table[k][1][0], **table[k][1][1])
+                elif ftype == "indexed_fit":
+                    f = kafe2.IndexedFit(y, im)
+                    for k in keys[::-1]:
+                        f.add_error(**table[k][1])
+                else:
+                    f = kafe2.HistFit(kafe2.HistContainer(5, (0.0, 6.0), None, HIST_ENTRIES), ref.normal_density, cost_function="gauss_approximation")
+                    for k in keys[::-1]:
+                        f.add_error(**table[k][1])
+                res = f.do_fit()
+                return err_sig(res, f, list(f.parameter_names))
+
+        return A, B
+
+    for ftype, table in (("xy_fit", xy_kw), ("indexed_fit", i_kw), ("hist_fit", h_kw)):
+        ks = list(table)
+        for a_, k1 in enumerate(ks):
+            for k2 in ks[a_ + 1 :]:
+                A, B = mk_err(ftype, table, (k1, k2))
+                cases.append(("errors/%s/%s+%s" % (ftype, k1, k2), A, B))
+    return cases
+
+
 def fam_models(v):
     import kafe2
 
@@ -648,7 +918,7 @@ def fam_yaml(v):
     return cases
 
 
-FAMILIES = {"sources": fam_sources, "constraints": fam_constraints, "wrappers": fam_wrappers, "models": fam_models, "yaml": fam_yaml}
+FAMILIES = {"sources": fam_sources, "constraints": fam_constraints, "wrappers": fam_wrappers, "wrapper-combos": fam_wrapper_combos, "models": fam_models, "yaml": fam_yaml}
 
 
 def jobs(tier, seed):
@@ -656,7 +926,7 @@ def jobs(tier, seed):
     specs = []
     for vv in ([v] if tier == "quick" else [0, 1, 2]):
         for fam in FAMILIES:
-            nsh = {"sources": 6, "wrappers": 6}.get(fam, 2)
+            nsh = {"sources": 3, "wrappers": 4, "wrapper-combos": 12}.get(fam, 2)
             for sh in range(nsh):
                 specs.append((fam, vv, sh, nsh))
     return specs
